@@ -73,7 +73,10 @@ class Device:
             return
         if not unsolicited:
             self.n_replies += 1
-        data = line.encode("utf-8") + b"\r\n"
+        if line.startswith("hex:"):
+            data = bytes.fromhex(line[4:]) + b"\r\n"          # raw bytes (not necessarily UTF-8) followed by the terminator
+        else:
+            data = line.encode("utf-8") + b"\r\n"
         self.emitted.append((sched.S.now, line, cause))
         sched.S.emit("dev_line", line=line, cause=cause)
         self._feed(data)
